@@ -1,0 +1,13 @@
+//go:build !verif || !unix
+
+package daemon
+
+import "os"
+
+// Stubs of the verification pause points (see pause_verif.go).
+
+func verifPause(point, sockpath string, arg int) {}
+
+func verifBool(b bool) int { return 0 }
+
+func verifSpawnEnv(attr *os.ProcAttr) {}
